@@ -256,6 +256,7 @@ def proof_coverage(chk, audit, checker_cmd, trusted_extra=()):
         checker_cmd=checker_cmd,
         theorems=audit["theorems"],
         axioms_used=sorted({a for v in audit["axioms"].values() for a in v}),
+        leanchecker=audit.get("leanchecker", {}),
         trusted_base=["Lean 4.33.0 kernel (lake build; `#print axioms` per property theorem: subset of propext, Classical.choice, Quot.sound)",
                       "no sorry/admit/own axioms/native_decide/bv_decide/implemented_by/unsafe (grep audit with comments stripped, run in this check)",
                       "hand-written Lean model tied to the C++ by the correspondence run of this check (tools/vlib.py, harness/, lean/Driver)"] + list(trusted_extra)))
@@ -275,7 +276,28 @@ def lean_gate(chk, prop):
     if audit["problems"]:
         chk.violation("lean-audit", "Lean audit failed: " + "; ".join(audit["problems"])[:300],
                       "\n".join(audit["problems"]), found_input=False)
+    audit["leanchecker"] = lean_recheck(chk, prop, chk.tier)
     return audit
+
+
+def lean_recheck(chk, prop, tier):
+    """Independent re-check of the compiled .olean files with `leanchecker` (replays every declaration of the module in
+    the kernel): quick tier = the property's Props module, thorough tier = every module of the property's directory."""
+    pdir = os.path.join(LEAN, "StirVerif", prop)
+    mods = ["StirVerif.%s.Props" % prop]
+    if tier == "thorough":
+        mods = sorted("StirVerif.%s.%s" % (prop, os.path.basename(f)[:-5]) for f in glob.glob(os.path.join(pdir, "*.lean")))
+    procs = [(m, subprocess.Popen(["lake", "env", "leanchecker", m], cwd=LEAN, stdout=subprocess.PIPE,
+                                  stderr=subprocess.STDOUT, text=True)) for m in mods]
+    bad = []
+    for m, p in procs:
+        out, _ = p.communicate()
+        if p.returncode != 0:
+            bad.append("%s: %s" % (m, out[-600:]))
+    if bad:
+        chk.violation("leanchecker", "leanchecker rejects compiled module(s): " + "; ".join(b.split(":")[0] for b in bad),
+                      "\n".join(bad), found_input=False)
+    return dict(modules=mods, rejected=len(bad))
 
 
 # --------------------------------------------------------------------------- generic differential run
@@ -314,6 +336,7 @@ def run_differential(chk, prop, harness, tier, sanitize=False, extra_args=(), ct
     ctx = None
     reported = 0
     distinct = set()
+    corr = []
     for k, op in enumerate(ol):
         kind = op.split(" ", 1)[0]
         stats["kinds"][kind] = stats["kinds"].get(kind, 0) + 1
@@ -328,7 +351,7 @@ def run_differential(chk, prop, harness, tier, sanitize=False, extra_args=(), ct
             if reported < max_report:
                 reported += 1
                 text = "# seed=%d tier=%s\n%s\n%s\n# implementation: %s\n# model         : %s\n" % (seed(), tier, ctx or "", op, a, b)
-                chk.violation("corr:%s:%s" % (ctx, op), "implementation and Lean model disagree on `%s` (context `%s`): impl=%s model=%s" % (op, ctx, a[:80], b[:80]), text)
+                corr.append(("corr:%s:%s" % (ctx, op), "implementation and Lean model disagree on `%s` (context `%s`): impl=%s model=%s" % (op, ctx, a[:80], b[:80]), text))
     stats["distinct"] = len(distinct)
     # oracle verdicts
     of = impl + ".oracle"
@@ -346,6 +369,14 @@ def run_differential(chk, prop, harness, tier, sanitize=False, extra_args=(), ct
                 # "KNOWN-CANDIDATE <key> <description>": a failing oracle case with a stable key (may be listed in known_findings.txt)
                 parts = l.split(" ", 2)
                 chk.violation(parts[1], parts[2] if len(parts) > 2 else parts[1], "# seed=%d tier=%s\n%s\n" % (seed(), tier, l))
+    # A broken correspondence is reported in any case; it counts as "failing input found" only if the property's own
+    # statement was also seen to fail on the implementation in this run (oracle), otherwise the VIOLATION line names the
+    # correspondence that no longer checks and ends with no-failing-input-found.
+    oracle_failed = stats["oracle_fails"] > 0 or any(v[0].startswith("oracle:") or not v[0].startswith(("corr:", "lean-", "bridge:", "leanchecker", "harness-"))
+                                                     for v in chk.violations)
+    for key, desc, text in corr:
+        chk.violation(key, desc + ("" if oracle_failed else " [correspondence model<->code broken; the property oracle found no failing input on the implementation]"),
+                      text, found_input=oracle_failed)
     k = len(ol)
     stats["samples"] = [ol[j] + "  =>  " + (il[j] if j < len(il) else "") for j in sorted({0, k // 3, k // 2, (2 * k) // 3, k - 1}) if 0 <= j < k][:6]
     return stats
